@@ -235,6 +235,9 @@ func checkUDPMetrics(w *uWorld, info *kit.Info) *kit.Finding {
 				if e.Status == "OK" {
 					return kit.Violation("udpmetrics:target-packet", "op %d: an oversize reply of %d bytes that was not relayed is reported with status OK (proxyClient=%d)", s.Op, s.PayloadLen, e.B)
 				}
+				if e.B != 0 {
+					return kit.Violation("udpmetrics:target-packet", "op %d: an oversize reply of %d bytes was not relayed (status %s): nothing went to the client, and %d bytes are reported as sent to it", s.Op, s.PayloadLen, e.Status, e.B)
+				}
 				continue
 			}
 			if e.Status != "OK" || e.A != int64(s.PayloadLen) || e.B != int64(s.WireLen) {
